@@ -1,4 +1,4 @@
-\* quick: every rooted ordered digraph with <= 4 nodes, out-degree <= 2, with and without a recover leaf;
+\* quick: every rooted ordered digraph with <= 4 nodes, out-degree <= 2, with and without a recover leaf (recover only for <= 3 nodes);
 \* definition self-check + LT transcription + CASE emission
 SPECIFICATION Spec
 CONSTANTS
@@ -6,6 +6,7 @@ CONSTANTS
   Degs = {0, 1, 2}
   MaxSwitch = 0
   RecDegs = {0}
+  RecMax = 3
   MaxRecNodes = 1
   EmitCases = TRUE
   DesignMax = 3
